@@ -144,7 +144,7 @@ func (b *StscBox) Info(w io.Writer, specificBoxLevels, indent, indentStep string
 	if level >= 1 {
 		for i := range b.Entries {
 			bd.write(" - entry[%d]: firstChunk=%d samplesPerChunk=%d sampleDescriptionID=%d",
-				i+1, b.Entries[i].FirstChunk, b.Entries[i].SamplesPerChunk, b.GetSampleDescriptionID(i+1))
+				i+1, b.Entries[i].FirstChunk, b.Entries[i].SamplesPerChunk, b.entrySampleDescriptionID(i))
 		}
 	}
 	return bd.err
@@ -184,7 +184,15 @@ func (b *StscBox) GetSampleDescriptionID(chunkNr int) uint32 {
 	if b.singleSampleDescriptionID != 0 {
 		return b.singleSampleDescriptionID
 	}
-	return b.SampleDescriptionID[chunkNr-1]
+	return b.SampleDescriptionID[b.findEntryNrForChunkNr(uint32(chunkNr))]
+}
+
+// entrySampleDescriptionID returns the sample description ID of entry entryIdx (zero-based).
+func (b *StscBox) entrySampleDescriptionID(entryIdx int) uint32 {
+	if b.singleSampleDescriptionID != 0 {
+		return b.singleSampleDescriptionID
+	}
+	return b.SampleDescriptionID[entryIdx]
 }
 
 // SetSingleSampleDescriptionID - use this for efficiency if all samples have same sample description
